@@ -309,6 +309,10 @@ type mutantDef struct {
 	Nth      int    `json:"nth,omitempty"` // which occurrence (1-based); 0 = must be unique
 	Expect   string `json:"expect"`        // substring of the violated key
 	Benign   bool   `json:"benign,omitempty"` // a behaviour-preserving edit: the check must stay silent
+	More     []struct {
+		Find    string `json:"find"`
+		Replace string `json:"replace"`
+	} `json:"more,omitempty"` // further edits in the same file
 }
 
 func loadMutants(verif string) ([]mutantDef, error) {
@@ -360,6 +364,12 @@ func mutantSource(repo string, m mutantDef) (string, []byte, error) {
 	out := append([]byte{}, src[:idx]...)
 	out = append(out, m.Replace...)
 	out = append(out, src[idx+len(m.Find):]...)
+	for _, e := range m.More {
+		if bytes.Count(out, []byte(e.Find)) != 1 {
+			return path, nil, fmt.Errorf("stale: additional edit does not apply exactly once")
+		}
+		out = bytes.Replace(out, []byte(e.Find), []byte(e.Replace), 1)
+	}
 	return path, out, nil
 }
 
